@@ -434,6 +434,8 @@ class Exporter {
         if (!reserved) noteCall(ON, E->getExprLoc(), "new");
       }
       if (NE->hasInitializer()) o["init"] = expr(NE->getInitializer());
+      // `new T` (default-initialisation) vs `new T()` / `new T{}` (value- / direct-initialisation)
+      o["style"] = NE->getInitializationStyle() == CXXNewExpr::NoInit ? "none" : (NE->getInitializationStyle() == CXXNewExpr::CallInit ? "call" : "list");
       const Expr *ini = NE->getInitializer();
       bool nothrowInit = true;
       if (ini) {
